@@ -379,4 +379,160 @@ theorem runActions_dinv (sortFn : List Utxo → List Utxo) (hperm : ∀ l, (sort
           obtain ⟨hd1, hl1⟩ := buildAction_dinv sortFn hperm exp s s1 a h1 hd hl
           exact ih (i + 1) s1 s2 h2 hd1 hl1
 
+
+/-! ### rollback: a failed Build leaves no reservation behind -/
+
+/-- two keepers agree on everything a caller can observe of reservations -/
+def SameRes (a b : Keeper) : Prop :=
+  a.reservations = b.reservations ∧ (∀ x, mLookup x a.reserved = mLookup x b.reserved) ∧
+  a.confirmed = b.confirmed ∧ a.unconfirmed = b.unconfirmed ∧ a.height = b.height
+
+/-- state during a Build: `k0` is the keeper before the Build, `new` the ids of the reservations
+    the Build has made so far (oldest first) -/
+structure RInv (k0 : Keeper) (s : Keeper × Builder) (new : List Res) : Prop where
+  rids : s.2.rids = new.map (·.id)
+  res : s.1.reservations = new.reverse ++ k0.reservations
+  fresh : ∀ r ∈ new, k0.next < r.id
+  next : k0.next ≤ s.1.next
+  inv : Inv s.1
+  same : s.1.confirmed = k0.confirmed ∧ s.1.unconfirmed = k0.unconfirmed ∧ s.1.height = k0.height
+
+theorem rinv_init (k0 : Keeper) (h : Inv k0) : RInv k0 (k0, ⟨[], [], []⟩) [] := by
+  constructor <;> simp [h]
+
+theorem buildAction_keeper (sortFn : List Utxo → List Utxo) (exp : Nat) (s : Keeper × Builder) (a : Action) :
+    ((buildAction sortFn exp s a).1.1 = s.1 ∧ (buildAction sortFn exp s a).1.2.rids = s.2.rids) ∨
+    ∃ r, (buildAction sortFn exp s a).1.1 = afterReserve s.1 r ∧ (buildAction sortFn exp s a).1.2.rids = s.2.rids ++ [r.id] ∧
+      r.id = s.1.next + 1 ∧ ∀ u ∈ r.utxos, mLookup u.id s.1.reserved = none := by
+  cases a with
+  | control asset amount prog =>
+    left; simp only [buildAction]; split_ifs <;> simp
+  | retire asset amount =>
+    left; simp only [buildAction]; split_ifs <;> simp
+  | spend acct asset amount useUnc =>
+    simp only [buildAction]
+    by_cases h0 : (amount == 0) = true
+    · left; simp [h0]
+    · simp only [h0, Bool.false_eq_true, if_false]
+      rcases reserveWith_cases sortFn s.1 acct asset amount useUnc 0 exp with ⟨r, hr, hid, hexp, hsub, hge, hch⟩ | ⟨hk, hne⟩
+      · right
+        refine ⟨r, ?_, ?_, hid, ?_⟩
+        · rw [hr]; simp only; split_ifs <;> (try rfl) <;> (cases r.utxos <;> simp <;> split_ifs <;> rfl)
+        · rw [hr]; simp only; split_ifs <;> (try rfl) <;> (cases r.utxos <;> simp <;> split_ifs <;> rfl)
+        · intro u hu
+          have hm := hsub.subset hu
+          simp only [List.mem_filter, isReserved, Bool.not_eq_true', Option.isSome_eq_false_iff,
+            Option.isNone_iff_eq_none] at hm
+          exact hm.2
+      · left
+        cases hres : reserveWith sortFn s.1 acct asset amount useUnc 0 exp with
+        | mk o k' =>
+          have hk' : k' = s.1 := by rw [hres] at hk; exact hk
+          cases o with
+          | ok r => exact absurd (by rw [hres]) (hne r)
+          | err e => simp [hk']
+          | panic => simp [hk']
+
+
+theorem buildAction_rinv (sortFn : List Utxo → List Utxo) (exp : Nat) (k0 : Keeper) (s : Keeper × Builder) (a : Action)
+    (new : List Res) (h : RInv k0 s new) : ∃ new', RInv k0 (buildAction sortFn exp s a).1 new' := by
+  rcases buildAction_keeper sortFn exp s a with ⟨h1, h2⟩ | ⟨r, h1, h2, hid, hfree⟩
+  · refine ⟨new, ?_⟩
+    constructor
+    · rw [h2]; exact h.rids
+    · rw [h1]; exact h.res
+    · exact h.fresh
+    · rw [h1]; exact h.next
+    · rw [h1]; exact h.inv
+    · rw [h1]; exact h.same
+  · refine ⟨new ++ [r], ?_⟩
+    constructor
+    · rw [h2, h.rids]; simp
+    · rw [h1]; simp [afterReserve, h.res]
+    · intro r' hr'
+      simp only [List.mem_append, List.mem_singleton] at hr'
+      rcases hr' with hr' | rfl
+      · exact h.fresh r' hr'
+      · have := h.next; omega
+    · rw [h1]; simp only [afterReserve]; have := h.next; omega
+    · rw [h1]; exact inv_afterReserve h.inv r hid hfree
+    · rw [h1]; exact h.same
+
+theorem runActions_rinv (sortFn : List Utxo → List Utxo) (exp : Nat) (k0 : Keeper) :
+    ∀ (actions : List Action) (i : Nat) (s : Keeper × Builder) (new : List Res), RInv k0 s new →
+    ∃ new', RInv k0 (runActions sortFn exp actions i s).1 new' := by
+  intro actions
+  induction actions with
+  | nil => intro i s new h; exact ⟨new, by simpa [runActions] using h⟩
+  | cons a rest ih =>
+    intro i s new h
+    obtain ⟨new1, h1⟩ := buildAction_rinv sortFn exp k0 s a new h
+    simp only [runActions]
+    cases hb : buildAction sortFn exp s a with
+    | mk s1 e =>
+      rw [hb] at h1
+      obtain ⟨new2, h2⟩ := ih (i + 1) s1 new1 h1
+      cases hr : runActions sortFn exp rest (i + 1) s1 with
+      | mk s2 es =>
+        rw [hr] at h2
+        exact ⟨new2, by simpa using h2⟩
+
+theorem cancel_reservations (k : Keeper) (rid : Nat) :
+    (cancel k rid).reservations = k.reservations.filter (fun r => r.id != rid) := by
+  unfold cancel
+  cases hf : k.reservations.find? (fun r => r.id == rid) with
+  | some r => rfl
+  | none =>
+    simp only
+    symm
+    rw [List.filter_eq_self]
+    intro r hr
+    have := List.find?_eq_none.mp hf r hr
+    simpa using this
+
+theorem cancel_same (k : Keeper) (rid : Nat) :
+    (cancel k rid).confirmed = k.confirmed ∧ (cancel k rid).unconfirmed = k.unconfirmed ∧ (cancel k rid).height = k.height := by
+  unfold cancel
+  cases k.reservations.find? (fun r => r.id == rid) <;> simp
+
+theorem cancelAll_spec (k : Keeper) (hk : Inv k) (rids : List Nat) :
+    Inv (rids.foldl cancel k) ∧
+    (rids.foldl cancel k).reservations = k.reservations.filter (fun r => !rids.contains r.id) ∧
+    (rids.foldl cancel k).confirmed = k.confirmed ∧ (rids.foldl cancel k).unconfirmed = k.unconfirmed ∧
+    (rids.foldl cancel k).height = k.height := by
+  induction rids generalizing k with
+  | nil => simp [hk]
+  | cons x xs ih =>
+    simp only [List.foldl_cons]
+    obtain ⟨h1, h2, h3, h4, h5⟩ := ih (cancel k x) (inv_cancel hk x)
+    obtain ⟨c3, c4, c5⟩ := cancel_same k x
+    refine ⟨h1, ?_, by rw [h3, c3], by rw [h4, c4], by rw [h5, c5]⟩
+    rw [h2, cancel_reservations, List.filter_filter]
+    congr 1
+    funext r
+    by_cases hrx : r.id = x
+    · simp [List.contains_cons, hrx]
+    · have : (r.id == x) = false := by simpa using hrx
+      simp [List.contains_cons, this, bne, hrx]
+
+/-- in a keeper satisfying the invariant the reserved map is determined by the reservations -/
+theorem lookup_of_reservations {a b : Keeper} (ha : Inv a) (hb : Inv b) (h : a.reservations = b.reservations) (x : Nat) :
+    mLookup x a.reserved = mLookup x b.reserved := by
+  cases hx : mLookup x a.reserved with
+  | some rid =>
+    obtain ⟨r, hr, hid, u, hu, hux⟩ := ha.bwd x rid hx
+    rw [h] at hr
+    have := hb.fwd r hr u hu
+    rw [hux, hid] at this
+    exact this.symm
+  | none =>
+    cases hy : mLookup x b.reserved with
+    | none => rfl
+    | some rid =>
+      obtain ⟨r, hr, hid, u, hu, hux⟩ := hb.bwd x rid hy
+      rw [← h] at hr
+      have := ha.fwd r hr u hu
+      rw [hux, hx] at this
+      cases this
+
 end BytomModel.Lemmas.Builder
